@@ -760,6 +760,81 @@ def part_chains(res, rng, n):
                     break
 
 
+def part_extended_types(res, rng):
+    """Targets that are instances of an application's subclass of a stock type with controllers ADDED (same type name), driven
+    after stock instances of that type have been driven in the same process: the added controllers are served like any other
+    (range, monotone, both ends of a full window), and the bundle survives a save/load with its slots in place."""
+    import rv.api as api
+    from rv import controller as rvc
+    from rv.modules import MODULE_CLASSES
+    from rv.modules.multictl import MultiCtl
+    originals = dict(MODULE_CLASSES)
+    try:
+        for base in (api.m.Amplifier, api.m.Filter, api.m.Distortion):
+            p = workload.new_project()
+            plain = p.new_module(base, name="plain")
+            first = MultiCtl.macro(p, (plain, list(base.controllers)[0]))
+            first.value = 32768                         # a stock instance is driven first
+            Wide = type(base.__name__, (base,), {"rvmon_extra": rvc.Controller((0, 100), 0), "rvmon_bipolar": rvc.Controller((-50, 50), 0),
+                                                 "__module__": base.__module__, "__doc__": base.__doc__})
+            MODULE_CLASSES.clear()
+            MODULE_CLASSES.update(originals)
+            wide = p.new_module(Wide, name="wide")
+            for cname, lo, hi in (("rvmon_extra", 0, 100), ("rvmon_bipolar", -50, 50)):
+                case = {"part": "extended-types", "base": base.__name__, "controller": cname}
+                res.count("extended_type_bundles")
+                try:
+                    bundle = MultiCtl.macro(p, (wide, cname))
+                except Exception as e:
+                    res.violation(f"C20:macro-raises:{type(e).__name__}:extended-type", f"macro onto the added controller {cname} of a {base.__name__} subclass raised {e!r}", case)
+                    continue
+                prev, seen = None, []
+                for v in list(range(0, 32769, 1024)) + [32768]:
+                    res.evaluations += 1
+                    try:
+                        bundle.value = v
+                    except Exception as e:
+                        res.violation(f"C20:delivery-raises:{type(e).__name__}:extended-type", f"value={v}: {e!r} ({case})", dict(case, input=v))
+                        break
+                    got = getattr(wide, cname)
+                    seen.append(got)
+                    if got < lo or got > hi or (prev is not None and got < prev):
+                        res.violation("C20:not-monotone:range:normal:extended-type" if lo <= got <= hi else "C20:out-of-range:range:extended-type",
+                                      f"value={v}: added controller {cname} ({lo}..{hi}) of a {base.__name__} subclass holds {got} after {prev}", dict(case, input=v))
+                        break
+                    prev = got
+                else:
+                    if (seen[0], seen[-1]) != (lo, hi):
+                        res.violation("C20:not-delivered:extended-type", f"full window onto the added controller {cname} ({lo}..{hi}) of a {base.__name__} subclass delivers {seen[0]} .. {seen[-1]}", case)
+    finally:
+        MODULE_CLASSES.clear()
+        MODULE_CLASSES.update(originals)
+    # a bundle whose later-slot target has a FREED earlier in-link and a lower position than an earlier-slot target, saved and loaded:
+    # every link still drives the controller its mapping names
+    for k in range(6):
+        p = workload.new_project()
+        gen_ = p.new_module(api.m.Generator)
+        t_hi = p.new_module(api.m.Amplifier, name="later slot, lower position")
+        t_lo = p.new_module(api.m.Distortion, name="earlier slot, higher position")
+        gen_ >> t_hi                                   # an in-link of its own ...
+        bundle = MultiCtl.macro(p, (t_lo, "volume"), (t_hi, "balance"))
+        if k % 2:
+            p.connect(gen_, ~t_hi)                     # ... freed again
+        case = {"part": "extended-types", "family": "freed-in-link-then-reload", "freed": bool(k % 2)}
+        res.count("bundles_reloaded_with_freed_in_links")
+        try:
+            q = workload.load(p.read())
+            b2 = q.modules[bundle.index]
+            b2.value = 32768
+            got = (q.modules[t_lo.index].volume, q.modules[t_hi.index].balance)
+        except Exception as e:
+            res.violation(f"C20:delivery-raises:{type(e).__name__}:reloaded", f"{e!r} ({case})", case)
+            continue
+        # (both ranges divide the input range evenly, so the top of a full window is the exact maximum)
+        if got != (256, 128):
+            res.violation("C20:not-delivered:reloaded", f"bundle (Distortion.volume, Amplifier.balance) saved and loaded, input 32768: targets hold {got}, expected (256, 128)", case)
+
+
 def part_wide_windows(res, rng, n):
     """Targets whose range is taken unscaled (MultiSynth.transpose ...) behind a window WIDER than their span, in a process that has
     also seen loads fail: every send either is refused or leaves the target inside its range."""
@@ -985,6 +1060,7 @@ def run_shard(spec_, res):
         part_other_writers(res, rng, spec_["tuples"] * 4)
         part_inside_metamodule(res, rng, spec_["tuples"] * 3)
         part_chains(res, rng, spec_["tuples"] * 4)
+        part_extended_types(res, rng)
         part_wide_windows(res, rng, spec_["tuples"] * 3)
     else:
         part_pure(res, rng, spec_["tuples"])
